@@ -2921,7 +2921,12 @@ func (a *Agent) TaskDispatch(RequestID uint32, CommandID uint32, Parser *parser.
 								ReadOne = true
 
 								if ListOnly {
-									Dir += fmt.Sprintf("%s%s\n", RootDirPath[:len(RootDirPath)-1], FileName)
+									// drop the trailing wildcard of the listed directory; an agent may send an empty name
+									var ListedDir = RootDirPath
+									if len(ListedDir) > 0 {
+										ListedDir = ListedDir[:len(ListedDir)-1]
+									}
+									Dir += fmt.Sprintf("%s%s\n", ListedDir, FileName)
 								} else {
 									LastModified = fmt.Sprintf("%02d/%02d/%d  %02d:%02d", LastAccessDay, LastAccessMonth, LastAccessYear, LastAccessHour, LastAccessMinute)
 									if IsDir {
